@@ -9,6 +9,8 @@
    1-bit field. *)
 From Coq Require Import ZArith List Bool Lia.
 From Cffi Require Import C03.Mem C03.Store C02.Spec C02.Model C02.Proofs C02.IR C02.Gen C02.Interp C02.GenProofs.
+From Cffi Require Import C02.Proofs2 C02.Layout.
+From Cffi Require C01.Spec C01.Model.
 Import ListNotations.
 Open Scope Z_scope.
 
@@ -59,6 +61,76 @@ Theorem C02_isolated_object : forall T w sh v off mem, placement T w sh ->
   else r = (BErr OverflowError, mem).
 Proof. exact isolated_object. Qed.
 Print Assumptions C02_isolated_object.
+
+(* ---- isolation with respect to the OTHER fields of the object (absolute-bit view, C02/Proofs2.v).
+   The object `mem` is one little-endian number; a field (T, w, sh) at byte offset `off` is its bits
+   [8*off+sh, 8*off+sh+w), whatever the type and offset of the storage unit it is accessed through. *)
+Theorem C02_read_abs : forall T w sh off mem, placement T w sh ->
+  (off + isize T <= List.length mem)%nat -> bytes_ok mem ->
+  bf_read_at T w sh off mem =
+  BOk (c_bitfield_value (isigned T) w (8 * Z.of_nat off + sh) (decode_le mem)).
+Proof. exact read_abs. Qed.
+Print Assumptions C02_read_abs.
+
+(* a write (any v, accepted or rejected) keeps the object's length and changes no bit of the object
+   outside the field's absolute range *)
+Theorem C02_write_frame_abs : forall T w sh v off mem, placement T w sh ->
+  (off + isize T <= List.length mem)%nat -> bytes_ok mem ->
+  let mem' := snd (bf_write_at T w sh v off mem) in
+  List.length mem' = List.length mem /\ bytes_ok mem' /\
+  forall j, 0 <= j -> ~ (8 * Z.of_nat off + sh <= j < 8 * Z.of_nat off + sh + w) ->
+    Z.testbit (decode_le mem') j = Z.testbit (decode_le mem) j.
+Proof. exact write_frame_abs. Qed.
+Print Assumptions C02_write_frame_abs.
+
+(* two bit-fields with disjoint absolute bit ranges — their storage units may have different types
+   and offsets and overlap partially, e.g. `char a:3; int b:5` — : writing one never changes what
+   is read through the other *)
+Theorem C02_fields_noninterfere : forall T1 w1 sh1 off1 T2 w2 sh2 off2 v mem,
+  placement T1 w1 sh1 -> placement T2 w2 sh2 ->
+  (off1 + isize T1 <= List.length mem)%nat -> (off2 + isize T2 <= List.length mem)%nat ->
+  bytes_ok mem ->
+  (8 * Z.of_nat off1 + sh1 + w1 <= 8 * Z.of_nat off2 + sh2 \/
+   8 * Z.of_nat off2 + sh2 + w2 <= 8 * Z.of_nat off1 + sh1) ->
+  bf_read_at T2 w2 sh2 off2 (snd (bf_write_at T1 w1 sh1 v off1 mem)) = bf_read_at T2 w2 sh2 off2 mem.
+Proof. exact fields_noninterfere. Qed.
+Print Assumptions C02_fields_noninterfere.
+
+(* ... nor the bytes [off2, off2+n2) of a neighbouring member that is not a bit-field *)
+Theorem C02_field_write_keeps_bytes : forall T1 w1 sh1 off1 v mem off2 n2,
+  placement T1 w1 sh1 -> (off1 + isize T1 <= List.length mem)%nat ->
+  (off2 + n2 <= List.length mem)%nat -> bytes_ok mem ->
+  (8 * Z.of_nat off1 + sh1 + w1 <= 8 * Z.of_nat off2 \/
+   8 * Z.of_nat (off2 + n2) <= 8 * Z.of_nat off1 + sh1) ->
+  unit_at off2 n2 (snd (bf_write_at T1 w1 sh1 v off1 mem)) = unit_at off2 n2 mem.
+Proof. exact field_write_keeps_bytes. Qed.
+Print Assumptions C02_field_write_keeps_bytes.
+
+(* Composition with the layout function (C01 model of b_complete_struct_or_union): in ANY struct of
+   C01's class without (anonymous) unions and with bit-field types of size <= alignment, for any two
+   distinct entries c1, c2 of the field table the layout function emits (anonymous structs' fields
+   included) with c1 a bit-field: the placement premises hold (C01_fields_within_object — the unit
+   lies inside the object), and writing c1 (any v) changes neither what is read through c2 if c2 is
+   a bit-field, nor the bytes of c2 otherwise.  `ity_for T c`: T is any integer ctype (either
+   signedness) whose size is the size the layout function computed for c's declared type, <= 8. *)
+Theorem C02_layout_fields_disjoint : forall t ti,
+  C01.Spec.in_class t -> C01.Spec.bf_size_le_align t -> C01.Spec.union_free t ->
+  C01.Model.cffi_layout t = C01.Model.Ok ti ->
+  forall i j c1 c2, i <> j ->
+  nth_error (C01.Model.ti_fields ti) i = Some c1 -> nth_error (C01.Model.ti_fields ti) j = Some c2 ->
+  0 <= C01.Model.cf_bitsize c1 ->
+  forall T1 v mem, ity_for T1 c1 -> C01.Model.ti_size ti <= Z.of_nat (List.length mem) -> bytes_ok mem ->
+  let w1 := C01.Model.cf_bitsize c1 in let sh1 := C01.Model.cf_bitshift c1 in
+  let off1 := Z.to_nat (C01.Model.cf_offset c1) in
+  let w2 := C01.Model.cf_bitsize c2 in let sh2 := C01.Model.cf_bitshift c2 in
+  let off2 := Z.to_nat (C01.Model.cf_offset c2) in
+  let mem' := snd (bf_write_at T1 w1 sh1 v off1 mem) in
+  placement T1 w1 sh1 /\ (off1 + isize T1 <= List.length mem)%nat /\
+  (0 <= w2 -> forall T2, ity_for T2 c2 -> bf_read_at T2 w2 sh2 off2 mem' = bf_read_at T2 w2 sh2 off2 mem) /\
+  (w2 < 0 -> unit_at off2 (Z.to_nat (C01.Model.size_of (C01.Model.cf_type c2))) mem' =
+             unit_at off2 (Z.to_nat (C01.Model.size_of (C01.Model.cf_type c2))) mem).
+Proof. exact layout_fields_disjoint. Qed.
+Print Assumptions C02_layout_fields_disjoint.
 
 (* acceptb is the boolean form of `accepted` *)
 Theorem C02_acceptb_spec : forall sg w v, 1 <= w -> acceptb sg w v = true <-> accepted sg w v.
@@ -123,3 +195,15 @@ Proof. vm_compute. repeat split. Qed.
 Example C02_ex_gen : gen_write (mk_ity 2 false false) 5 9 21 [255; 255] = (BOk tt, [255; 235]) /\
                      gen_read (mk_ity 2 false false) 5 9 [255; 235] = BOk 21.
 Proof. vm_compute. repeat split. Qed.
+
+(* `struct { char a:3; int b:5; }` (gcc: a = bits 0..2 via a 1-byte unit, b = bits 3..7 via a 4-byte
+   unit at the same offset): the hypotheses of C02_fields_noninterfere hold, and writing a = -3 into
+   an all-ones object leaves b's reading -1 while a reads -3 *)
+Example C02_ex_two_units :
+  let Tc := mk_ity 1 true false in let Ti := mk_ity 4 true false in
+  placement Tc 3 0 /\ placement Ti 5 3 /\
+  snd (bf_write_at Tc 3 0 (-3) 0 [255; 255; 255; 255]) = [253; 255; 255; 255] /\
+  bf_read_at Ti 5 3 0 [253; 255; 255; 255] = BOk (-1) /\ bf_read_at Tc 3 0 0 [253; 255; 255; 255] = BOk (-3).
+Proof.
+  cbv zeta. split; [|split]; [constructor; cbn; try lia; discriminate ..|]. vm_compute. repeat split.
+Qed.
